@@ -136,6 +136,48 @@ def stepS (cmp : Int → Int → Bool) (s : List Int) : SOp → Option (List Int
   | .popAll => (Slice.popAll cmp (s.length + 1) s).map fun (s1, xs) => (s1, .vals xs)
   | .popAllN k => (Slice.popAllK cmp k s).map fun (s1, xs) => (s1, .vals xs)
 
+/-- run a list of `Slice` calls, collecting the results -/
+def runSR (cmp : Int → Int → Bool) : List Int → List SOp → Option (List Int × List SRet)
+  | s, [] => some (s, [])
+  | s, o :: os =>
+    match stepS cmp s o with
+    | none => none
+    | some (s1, r) =>
+      match runSR cmp s1 os with
+      | none => none
+      | some (s2, rs) => some (s2, r :: rs)
+
+/-- `for v := range s.PopAll() { body(i, v); if i+1 == k { break } }` as coded in iter.go
+(`e, ok := s.Pop()` first, then `yield(e)`): result = `Values`, the yielded values, the results of
+the body's calls, loop ended? -/
+def Slice.popAllBody (cmp : Int → Int → Bool) (body : Nat → List SOp) (k : Nat) :
+    Nat → Nat → List Int → Option (List Int × List Int × List SRet × Bool)
+  | 0, _, s => some (s, [], [], false)
+  | f + 1, i, s =>
+    match Slice.pop cmp s with
+    | none => none
+    | some (s1, _, false) => some (s1, [], [], true)
+    | some (s1, x, true) =>
+      match runSR cmp s1 (body i) with
+      | none => none
+      | some (s2, rs) =>
+        if i + 1 = k then some (s2, [x], rs, true)
+        else
+          match Slice.popAllBody cmp body k f (i + 1) s2 with
+          | none => none
+          | some (s3, xs, rs', d) => some (s3, x :: xs, rs ++ rs', d)
+
+def scriptBodyS (script : List (List SOp)) (i : Nat) : List SOp :=
+  match script[i]? with
+  | some l => l
+  | none => []
+
+def SRet.toInts : SRet → List Int
+  | .unit => []
+  | .val x ok => [x, if ok then 1 else 0]
+  | .len n => [(n : Int)]
+  | .vals xs => xs
+
 /-! ### `Heap[T]` with `*Element[T]` handles
 
 One memory holds two heaps (`0`, `1`) and every element ever allocated: `idx` = `e.index`,
@@ -335,6 +377,7 @@ inductive HRet where
   | len (n : Nat)
   | vals (xs : List Int)
   | popped (es : List Nat)
+  | bodyRes (es : List Nat) (xs : List Int) (done : Bool)
 
 def stepH (st : HState) : HOp → Option (HState × HRet)
   | .init h c vs => (st.m.init c h.val vs).map fun m1 => ({ st.setCmp h.val c with m := m1 }, .unit)
@@ -362,9 +405,68 @@ later time, any number of times — is `popAllN`/`popAll` on that heap in its CU
 `c := *h` makes another heap object (another address, modelled as identity `h + 2`): every element
 of `h` is foreign to it, so `c.Remove(e)` / `c.Fix(e)` are the calls `copyRemove` / `copyFix`. -/
 
+/-- run a list of calls, collecting the results (`none` = one of them panicked) -/
+def runH : HState → List HOp → Option (HState × List HRet)
+  | st, [] => some (st, [])
+  | st, o :: os =>
+    match stepH st o with
+    | none => none
+    | some (st1, r) =>
+      match runH st1 os with
+      | none => none
+      | some (st2, rs) => some (st2, r :: rs)
+
+/-- `for v := range h.PopAll() { body(i, v); if i+1 == k { break } }` with the loop of iter.go
+as coded — `for { e := h.Pop(); if e == nil { break }; if !yield(e.Value) { break } }`: the element
+has LEFT the heap when the body of iteration `i` (`body i`, any calls on either heap) runs.
+Result: final state, the popped elements, the results of the body's calls, and whether the loop
+ended (`false` = the fuel `f` ran out: a body that keeps pushing never lets the real loop end). -/
+def popAllBody (h : Fin 2) (body : Nat → List HOp) (k : Nat) :
+    Nat → Nat → HState → Option (HState × List Nat × List HRet × Bool)
+  | 0, _, st => some (st, [], [], false)
+  | f + 1, i, st =>
+    match st.m.pop (st.cmp h.val) h.val with
+    | none => none
+    | some (m1, none) => some ({ st with m := m1 }, [], [], true)
+    | some (m1, some e) =>
+      match runH { st with m := m1 } (body i) with
+      | none => none
+      | some (st2, rs) =>
+        if i + 1 = k then some (st2, [e], rs, true)
+        else
+          match popAllBody h body k f (i + 1) st2 with
+          | none => none
+          | some (st3, es, rs', d) => some (st3, e :: es, rs ++ rs', d)
+
+/-- the body given as a script: the calls of iteration `i` (none beyond the script) -/
+def scriptBody (script : List (List HOp)) (i : Nat) : List HOp :=
+  match script[i]? with
+  | some l => l
+  | none => []
+
+/-- results of body calls as integers for the line protocol -/
+def HRet.toInts : HRet → List Int
+  | .unit => []
+  | .handle none => [-1]
+  | .handle (some e) => [(e : Int)]
+  | .len n => [(n : Int)]
+  | .vals xs => xs
+  | .popped es => es.map fun (e : Nat) => (e : Int)
+  | .bodyRes es xs _ => es.map (fun (e : Nat) => (e : Int)) ++ xs
+
+def HRet.isNil : HRet → Bool
+  | .handle none => true
+  | _ => false
+
+/-- The client: the heaps, the held Seq values (`seqs`, a Seq = the identity of its heap) and the
+`iter.Pull` cursors made from them (`curs`: heap, still active?). `next, stop := iter.Pull(q)`:
+each `next()` on an active cursor resumes the loop of `PopAll` for one round — ONE `Pop` on the
+shared heap; when that `Pop` finds the heap empty the loop ends and the cursor is finished for
+good; `stop()` finishes it; a finished cursor answers `(zero, false)` and touches nothing. -/
 structure HClient where
   st   : HState
   seqs : List (Fin 2)
+  curs : List (Fin 2 × Bool)
 
 inductive COp where
   | op (o : HOp)
@@ -373,6 +475,15 @@ inductive COp where
   | rangeAll (slot : Nat)
   | copyRemove (h : Fin 2) (e : Nat)
   | copyFix (h : Fin 2) (e : Nat)
+  | popAllBody (h : Fin 2) (k : Nat) (script : List (List HOp))
+  | pull (slot : Nat)
+  | next (cur : Nat)
+  | stop (cur : Nat)
+
+/-- enough rounds for a scripted body: every scripted call adds at most one element (the driver
+admits no `Init` in a body) -/
+def bodyFuel (c : HClient) (h : Fin 2) (script : List (List HOp)) : Nat :=
+  (c.st.m.arr h.val).length + (script.map List.length).sum + 1
 
 def stepC (c : HClient) : COp → Option (HClient × HRet)
   | .op o => (stepH c.st o).map fun (st1, r) => ({ c with st := st1 }, r)
@@ -389,6 +500,24 @@ def stepC (c : HClient) : COp → Option (HClient × HRet)
     (c.st.m.remove (c.st.cmp h.val) (h.val + 2) e).map fun m1 => ({ c with st := { c.st with m := m1 } }, .unit)
   | .copyFix h e =>
     (c.st.m.fixElem (c.st.cmp h.val) (h.val + 2) e).map fun m1 => ({ c with st := { c.st with m := m1 } }, .unit)
+  | .popAllBody h k script =>
+    (popAllBody h (scriptBody script) k (bodyFuel c h script) 0 c.st).map fun (st1, es, rs, d) =>
+      ({ c with st := st1 }, .bodyRes es (rs.flatMap HRet.toInts) d)
+  | .pull i =>
+    match c.seqs[i]? with
+    | none => none
+    | some h => some ({ c with curs := c.curs ++ [(h, true)] }, .unit)
+  | .next j =>
+    match c.curs[j]? with
+    | none => none
+    | some (_, false) => some (c, .handle none)
+    | some (h, true) =>
+      (stepH c.st (.pop h)).map fun (st1, r) =>
+        ({ c with st := st1, curs := if r.isNil then c.curs.set j (h, false) else c.curs }, r)
+  | .stop j =>
+    match c.curs[j]? with
+    | none => none
+    | some (h, _) => some ({ c with curs := c.curs.set j (h, false) }, .unit)
 
 /-! ### generic `Interface[T]` functions on a recording container
 
